@@ -48,13 +48,48 @@ E("kat_pbkdf2_rfc6070_2", "pbkdf2_sha1_spec %s %s 2%%nat 20%%nat"%(L(b"password"
 pw65=bytes((i*3+5)&255 for i in range(65))
 ex.append("(* the (fixed) streaming-HMAC based PBKDF2 model on a 65-byte password - the input that crashes the unfixed library *)")
 E("kat_model_pbkdf2_65_byte_password", "pbkdf2_sha1 %s %s 2%%Z 25%%nat"%(L(pw65),L(b"salt")), hashlib.pbkdf2_hmac("sha1",pw65,b"salt",2,25), None, "Ok %s")
-EXTRA = open(sys.argv[1]).read() if len(sys.argv) > 1 else ""
+
+# ---------------------------------------------------------------- symmetric: published vectors, literal
+def H(h): return L(bytes.fromhex(h))
+sym=[]
+def S(name, lhs, rhs): sym.append("Example %s :\n  %s\n  = %s.\nProof. vm_compute. reflexivity. Qed.\n" % (name, lhs, rhs))
+pt197="00112233445566778899aabbccddeeff"
+S("kat_aes128_fips197_c1", "aes_encrypt_block %s %s"%(H("000102030405060708090a0b0c0d0e0f"),H(pt197)), H("69c4e0d86a7b0430d8cdb78070b4c55a"))
+S("kat_aes192_fips197_c2", "aes_encrypt_block %s %s"%(H("000102030405060708090a0b0c0d0e0f1011121314151617"),H(pt197)), H("dda97ca4864cdfe06eaf70a0ec0d7191"))
+S("kat_aes256_fips197_c3", "aes_encrypt_block %s %s"%(H("000102030405060708090a0b0c0d0e0f101112131415161718191a1b1c1d1e1f"),H(pt197)), H("8ea2b7ca516745bfeafc49904b496089"))
+S("kat_aes128_inv_fips197_c1", "aes_decrypt_block %s %s"%(H("000102030405060708090a0b0c0d0e0f"),H("69c4e0d86a7b0430d8cdb78070b4c55a")), H(pt197))
+S("kat_aes256_inv_fips197_c3", "aes_decrypt_block %s %s"%(H("000102030405060708090a0b0c0d0e0f101112131415161718191a1b1c1d1e1f"),H("8ea2b7ca516745bfeafc49904b496089")), H(pt197))
+k38="2b7e151628aed2a6abf7158809cf4f3c"; iv38="000102030405060708090a0b0c0d0e0f"
+p38="6bc1bee22e409f96e93d7e117393172aae2d8a571e03ac9c9eb76fac45af8e51"; c38="7649abac8119b246cee98e9b12e9197d5086cb9b507219ee95db113a917678b2"
+S("kat_cbc_aes128_sp800_38a_f21", "aes_cbc_encrypt_spec %s %s %s"%(H(k38),H(iv38),H(p38)), H(c38))
+S("kat_cbc_aes128_sp800_38a_f22", "aes_cbc_decrypt_spec %s %s %s"%(H(k38),H(iv38),H(c38)), H(p38))
+z16="00"*16; z12="00"*12
+S("kat_gcm_test_case_1", "aes_gcm_encrypt_spec %s %s [] [] 16%%nat"%(H(z16),H(z12)), "([], %s)"%H("58e2fccefa7e3061367f1d57a4e7455a"))
+S("kat_gcm_test_case_2", "aes_gcm_encrypt_spec %s %s [] %s 16%%nat"%(H(z16),H(z12),H(z16)), "(%s, %s)"%(H("0388dace60b6a392f328c2b971b2fe78"),H("ab6e47d42cec13bdf53a67b21257bddf")))
+k4="feffe9928665731c6d6a8f9467308308"; iv4="cafebabefacedbaddecaf888"
+p4="d9313225f88406e5a55909c5aff5269a86a7a9531534f7da2e4c303d8a318a721c3c0c95956809532fcf0e2449a6b525b16aedf5aa0de657ba637b39"
+a4="feedfacedeadbeeffeedfacedeadbeefabaddad2"
+c4="42831ec2217774244b7221b784d0d49ce3aa212f2c02a4e035c17e2329aca12e21d514b25466931c7d8f6a5aac84aa051ba30b396a0aac973d58e091"
+S("kat_gcm_test_case_4", "aes_gcm_encrypt_spec %s %s %s %s 16%%nat"%(H(k4),H(iv4),H(a4),H(p4)), "(%s, %s)"%(H(c4),H("5bc94fbc3221a5db94fae95ae7121a47")))
+S("kat_gcm_test_case_4_decrypt", "aes_gcm_decrypt_spec %s %s %s %s %s"%(H(k4),H(iv4),H(a4),H(c4),H("5bc94fbc3221a5db94fae95ae7121a47")), "Some %s"%H(p4))
+S("kat_gcm_test_case_4_decrypt_bad_tag", "aes_gcm_decrypt_spec %s %s %s %s %s"%(H(k4),H(iv4),H(a4),H(c4),H("5bc94fbc3221a5db94fae95ae7121a46")), "None")
+kc="000102030405060708090a0b0c0d0e0f101112131415161718191a1b1c1d1e1f"
+S("kat_chacha20_block_rfc8439_232", "chacha20_block %s 1 %s"%(H(kc),H("000000090000004a00000000")),
+  H("10f1e7e4d13b5915500fdd1fa32071c4c7d1f4c733c068030422aa9ac3d46c4ed2826446079faa0914c2d705d98b02a2b5129cd1de164eb9cbd083e8a2503c4e"))
+S("kat_poly1305_rfc8439_252", "poly1305_mac %s %s"%(H("85d6be7857556d337f4452fe42d506a80103808afb0db2fd4abff6af4149f51b"),L(b"Cryptographic Forum Research Group")), H("a8061dc1305136c6c22b8baf0c0127a9"))
+sun=b"Ladies and Gentlemen of the class of '99: If I could offer you only one tip for the future, sunscreen would be it."
+ka="808182838485868788898a8b8c8d8e8f909192939495969798999a9b9c9d9e9f"; na="070000004041424344454647"; aa="50515253c0c1c2c3c4c5c6c7"
+ca="d31a8d34648e60db7b86afbc53ef7ec2a4aded51296e08fea9e2b5a736ee62d63dbea45e8ca9671282fafb69da92728b1a71de0a9e060b2905d6a5b67ecd3b3692ddbd7f2d778b8c9803aee328091b58fab324e4fad675945585808b4831d7bc3ff4def08e4b7a9de576d26586cec64b6116"
+S("kat_chachapoly_seal_rfc8439_282", "chachapoly_seal_spec %s %s %s %s"%(H(ka),H(na),H(aa),L(sun)), H(ca+"1ae10b594f09e26a7e902ecbd0600691"))
+S("kat_chachapoly_open_rfc8439_282", "chachapoly_open_spec %s %s %s %s"%(H(ka),H(na),H(aa),H(ca+"1ae10b594f09e26a7e902ecbd0600691")), "Some %s"%L(sun))
+
+EXTRA = "\n".join(sym)
 print("""(* C12 - known answers from the standards (FIPS 180-4 examples, RFC 1321 A.5, RFC 2202, RFC 4231,
    RFC 5869 A.1, RFC 6070, FIPS 197, SP 800-38A, SP 800-38D test cases, RFC 8439) evaluated on the
    Gallina specifications by the kernel's vm.  Generated by tools/c12/gen_kat.py from the published
    vectors; kept small enough to compile in seconds. *)
 From Coq Require Import List NArith ZArith.
-From MV Require Import Crypto.CryptoPrims Crypto.CryptoSpec Crypto.CryptoModel.
+From MV Require Import Crypto.CryptoPrims Crypto.CryptoSpec Crypto.CryptoModel Crypto.CryptoSym.
 Import ListNotations.
 Local Open Scope N_scope.
 """)
